@@ -82,7 +82,9 @@ func userFuncs(l *CallLog) map[string]any {
 		"recb":  func(k int64, b bool) bool { l.add(8, k); return b },
 		"recs":  func(k int64, s string) string { l.add(9, k); return s },
 		"two":   func() (int64, int64) { return 1, 2 },
-		"none":  func() {},
+		// a parameter of STRUCT type (by value): a pointer to the struct is not accepted in its place
+		"nameOf": func(t T1) string { return t.Name },
+		"none":   func() {},
 		"failIf": func(b bool) (string, error) {
 			if b {
 				return "", sentinels[2]
@@ -92,7 +94,7 @@ func userFuncs(l *CallLog) map[string]any {
 	}
 }
 
-var userFuncIDs = map[string]int{"one": 1, "ident": 2, "fail": 3, "boom": 4, "add": 5, "cat": 6, "rec": 7, "recb": 8, "recs": 9, "two": 10, "none": 11, "failIf": 12}
+var userFuncIDs = map[string]int{"one": 1, "ident": 2, "fail": 3, "boom": 4, "add": 5, "cat": 6, "rec": 7, "recb": 8, "recs": 9, "two": 10, "none": 11, "failIf": 12, "nameOf": 13}
 
 // ---- value encoding (shared with ocaml/driver.ml) ----
 
